@@ -366,6 +366,43 @@ func rulesC05(c *Ctx) {
 			}
 			// onClose under CompareAndSwap(false,true)
 			oc := c.Field(pM, side.typ, "onClose")
+			// the hook is called: on the edge where it is set and the once-flag was won, every path calls it; that test is
+			// reached on every path after conn.Close (whatever conn.Close returned)
+			calledOC := false
+			for _, t := range g.edgesWhere(func(a Atom) bool {
+				ce, isC := a.E.(*ast.CallExpr)
+				if !isC || !a.Val {
+					return false
+				}
+				sl, isS := ast.Unparen(ce.Fun).(*ast.SelectorExpr)
+				return isS && sl.Sel.Name == "CompareAndSwap"
+			}) {
+				if g.allPathsPass(t, func(v int) bool {
+					for _, call := range f.AllCalls(g.Node(v), false) {
+						if f.IsField(call.Fun, oc) {
+							return true
+						}
+					}
+					return false
+				}) {
+					calledOC = true
+				}
+			}
+			casReached, _ := g.MustPass(cv, g.Exits, func(v int) bool {
+				found := false
+				if n := g.Node(v); n != nil {
+					ast.Inspect(n, func(x ast.Node) bool {
+						if ce, ok := x.(*ast.CallExpr); ok {
+							if sl, ok := ast.Unparen(ce.Fun).(*ast.SelectorExpr); ok && sl.Sel.Name == "CompareAndSwap" {
+								found = true
+							}
+						}
+						return true
+					})
+				}
+				return found
+			})
+			c.Check(calledOC && casReached, side.label+":onClose-is-called", f, nil, "after conn.Close every path reaches the once-test, and winning it always calls onClose: the owner (Client/Server/HTTP handler) forgets the session")
 			for _, call := range f.AllCalls(f.Body, false) {
 				if f.IsField(call.Fun, oc) {
 					guards := g.GuardsAt(g.VertexOf(call))
